@@ -46,7 +46,8 @@ def run(tier, seed):
     mlr = vlib.build_mlr()
     thorough = tier == "thorough"
     cov = {"tlc_runs": [], "samples": []}
-    laws = b3.check_laws("InferenceMC", {"MaxLen": 4 if thorough else 3})
+    # (MaxLen 4: 137 561 states, about 20 minutes on 12 idle workers, much longer on a loaded machine)
+    laws = b3.check_laws("InferenceMC", {"MaxLen": 4 if thorough else 3}, timeout=13000 if thorough else 3000)
     if laws.violated:
         raise vlib.Inconclusive("Inference.tla violates its own laws: %s" % laws.violated)
     states, transitions = laws.distinct, laws.generated
